@@ -16,6 +16,7 @@ type flowBuilder struct {
 	flowReps           map[string]internaltypes.FlowRepI
 	foreignRoot        *EntryPoint
 	incorporating      map[string]struct{} // flows whose connections are being built (cycle guard)
+	foreignExit        *FlowGraphNode      // processor that follows the flow being incorporated, if any
 	nodeBuilder        *graphNodeBuilder
 	processorManager   *processors.ProcessorManager
 	resourceManagement *resources.ResourceManagement
@@ -197,8 +198,13 @@ func (fb *flowBuilder) connectProcessorToFlow(
 	}
 
 	targetFlowName := conn.GetTo().GetFlow().GetName()
-	// will incorporate nodes/connections from the target flow into the current flow
-	if err := fb.incorporateFlow(targetFlowName, flowDir); err != nil {
+	// will incorporate nodes/connections from the target flow into the current flow;
+	// nothing follows it: its connections to the stream end stay connections to the stream end
+	outerExit := fb.foreignExit
+	fb.foreignExit = nil
+	err = fb.incorporateFlow(targetFlowName, flowDir)
+	fb.foreignExit = outerExit
+	if err != nil {
 		return fmt.Errorf("failed to incorporate flow %s: %w", targetFlowName, err)
 	}
 
@@ -233,7 +239,12 @@ func (fb *flowBuilder) connectFlowToProcessor(
 
 	// flow from which we have connection to this processor
 	sourceFlowName := conn.GetFrom().GetFlow().GetName()
-	if err := fb.incorporateFlow(sourceFlowName, flowDir); err != nil {
+	// the incorporated flow is followed by targetNode: its connections to the stream end lead there
+	outerExit := fb.foreignExit
+	fb.foreignExit = targetNode
+	err = fb.incorporateFlow(sourceFlowName, flowDir)
+	fb.foreignExit = outerExit
+	if err != nil {
 		return fmt.Errorf("failed to incorporate flow %s: %w", sourceFlowName, err)
 	}
 
@@ -286,13 +297,10 @@ func (fb *flowBuilder) connectProcessorToStream(
 
 	edge := NewConnectionEdge(conn.GetFrom().GetProcessor().GetCondition())
 
-	if flowDir.flowType.IsRequestType() && sourceNode.flowGraphName != flowDir.flowName {
-		// case when processor is really connected to another flow and not to stream
-		// in this case, we will connect this node to the root node of the connected flow
-		if flowDir.root == nil {
-			return fmt.Errorf("root node not found for flow %s", flowDir.flowName)
-		}
-		edge.node = flowDir.root.node
+	if sourceNode.flowGraphName != flowDir.flowName && fb.foreignExit != nil {
+		// case when processor belongs to a flow referenced by 'from: flow at end' and is really
+		// connected to the processor that follows that flow and not to the stream
+		edge.node = fb.foreignExit
 	} else {
 		edge.stream = conn.GetTo().GetStream()
 	}
